@@ -24,6 +24,7 @@ type MonTable struct {
 	Delete  bool
 	Modify  bool
 	NoSel   bool // "select" omitted: everything selected
+	NoCols  bool // "columns" omitted: every column selected (Columns lists them all)
 }
 
 func (m *MonReq) TableNames() []string { return SortedKeys(m.Tables) }
@@ -50,6 +51,9 @@ func (m *MonReq) Wire() map[string]any {
 	o := map[string]any{}
 	for t, mt := range m.Tables {
 		r := map[string]any{"columns": mt.Columns}
+		if mt.NoCols {
+			delete(r, "columns")
+		}
 		if !mt.NoSel {
 			r["select"] = map[string]any{"initial": mt.Initial, "insert": mt.Insert, "delete": mt.Delete, "modify": mt.Modify}
 		}
